@@ -149,7 +149,18 @@ def bounded(ctx):
                     # the replacement's record identifier is free: its own, that of another module, of the vector, or
                     # Biopython's default -- the segment it contributes is decided by its overhangs only
                     rid = ("r", "m%d" % ((j + 1) % chain_len), "v", "<unknown id>")[(j + newlen) % 4]
-                    repl = Mod(CircularRecord(Seq(ba.rotate(ntext, rng.randrange(len(ntext)))), id=rid))
+                    # ... and so is the way it was made: a fresh record, or a redesign of the part in use (a copy of its
+                    # record, taken after that record was typed and assembled, given the new sequence)
+                    made = ("fresh", "deepcopy", "copy")[(j + newlen + chain_len) % 3]
+                    nseq = Seq(ba.rotate(ntext, rng.randrange(len(ntext))))
+                    if made == "fresh":
+                        repl = Mod(CircularRecord(nseq, id=rid))
+                    else:
+                        import copy as _copy
+                        rec_ = (_copy.deepcopy if made == "deepcopy" else _copy.copy)(mods[j].record)
+                        rec_.seq = nseq
+                        rec_.id = rid
+                        repl = Mod(rec_)
                     ms = list(mods)
                     ms[j] = repl
                     rng.shuffle(ms)
